@@ -1,2 +1,1099 @@
-// Package c19 is the check for property C19 (see DESIGN.md section 3).
+// Package c19: credentials are only sent to the registry they were configured for.
+//
+// Model checking of the credential configuration language: every string over a small alphabet (up
+// to a length bound) is a candidate BUF_TOKEN; the reference model reftoken (recogniser + sentence
+// generator, cross-checked against each other) says which configuration the string denotes or that
+// it is malformed; every (configuration, request host) lookup is replayed on buf's real providers.
+// The same is done for generated .netrc files (refnetrc), for the provider chain behind the real
+// authorization interceptor and connectclient.Make with a recording in-process HTTP client, and
+// end to end through the in-process CLI (`buf registry whoami`) against loopback HTTP servers
+// standing in for three registries.
 package c19
+
+import (
+	"bytes"
+	"context"
+	"fmt"
+	"hash/fnv"
+	"io"
+	"net/http"
+	"net/http/httptest"
+	"os"
+	"path/filepath"
+	"sort"
+	"strings"
+	"sync"
+	"sync/atomic"
+	"time"
+
+	"connectrpc.com/connect"
+	"github.com/bufbuild/buf/private/bufpkg/bufconnect"
+	"github.com/bufbuild/buf/private/gen/proto/connect/buf/alpha/registry/v1alpha1/registryv1alpha1connect"
+	registryv1alpha1 "github.com/bufbuild/buf/private/gen/proto/go/buf/alpha/registry/v1alpha1"
+	"github.com/bufbuild/buf/private/pkg/app"
+	"github.com/bufbuild/buf/private/pkg/connectclient"
+	"github.com/bufbuild/buf/private/pkg/netrc"
+	"github.com/bufbuild/bufverif/internal/bufx"
+	"github.com/bufbuild/bufverif/internal/evid"
+	"google.golang.org/protobuf/proto"
+)
+
+func init() {
+	evid.Register(&evid.Check{ID: "C19", Level: "model_checking", Run: run,
+		QuickBudget: 80 * time.Second, ThoroughBudget: 14 * time.Minute})
+}
+
+// ---------------------------------------------------------------------------------------------
+// shared state of one run
+
+type checker struct {
+	r       *evid.Run
+	scratch string
+
+	statesMu sync.Mutex
+	states   map[uint64]struct{}
+
+	// clause counters
+	envStrings, envNone, envSingle, envMap, envReject, envRejectPartly    atomic.Int64
+	envGreyRejected, envGreyAccepted                                      atomic.Int64
+	lookTokenForHost, lookHostless, lookNoneNothingConfigured, lookNoLeak atomic.Int64
+	selfChecked                                                           atomic.Int64
+	nNamed, nDefault, nNamedNoPassword, nNone                             atomic.Int64
+	chEnvWins, chEnvOnly, chNetrcUsed, chNeither, chEnvRejected           atomic.Int64
+	chNoLeakEnv, chNoLeakNetrc                                            atomic.Int64
+	e2eRuns, e2eRejected, e2eHeader, e2eNoHeader, e2eEnvWins, e2eNetrc    atomic.Int64
+	e2eNoLeak                                                             atomic.Int64
+}
+
+func (c *checker) addStates(keys []string) {
+	c.statesMu.Lock()
+	for _, k := range keys {
+		h := fnv.New64a()
+		h.Write([]byte(k))
+		c.states[h.Sum64()] = struct{}{}
+	}
+	c.statesMu.Unlock()
+}
+
+func (c *checker) lookup(n int) {
+	c.r.Eval(n)
+	c.r.Transitions.Add(int64(n))
+	c.r.TracesValidated.Add(int64(n))
+}
+
+// Case is the written-out form of one explored case.
+type Case struct {
+	Phase       string   `json:"phase"`
+	Constructor string   `json:"constructor,omitempty"`
+	BufToken    string   `json:"buf_token"`
+	Netrc       string   `json:"netrc,omitempty"`
+	RequestHost string   `json:"request_host,omitempty"`
+	Model       string   `json:"model"`
+	Want        string   `json:"want_token"`
+	Got         string   `json:"got_token"`
+	Detail      string   `json:"detail,omitempty"`
+	Sent        []string `json:"sent,omitempty"`
+}
+
+// ---------------------------------------------------------------------------------------------
+// enumeration of all strings over a symbol alphabet
+
+func pow(b, e int) int {
+	n := 1
+	for i := 0; i < e; i++ {
+		n *= b
+	}
+	return n
+}
+
+// forAllStrings calls f(globalIndex, nsyms, text) for every sequence of at most maxLen symbols, in
+// parallel, shortest first. done is called once per chunk so that callers can flush local state.
+func forAllStrings(r *evid.Run, syms []string, maxLen int, f func(local *localState, idx, nsyms int, s string), done func(local *localState)) int {
+	k := len(syms)
+	starts := make([]int, maxLen+2)
+	for l := 0; l <= maxLen; l++ {
+		starts[l+1] = starts[l] + pow(k, l)
+	}
+	total := starts[maxLen+1]
+	const chunk = 2048
+	nChunks := (total + chunk - 1) / chunk
+	r.ParallelFor(nChunks, 0, func(ci int) {
+		local := &localState{}
+		var sb strings.Builder
+		digits := make([]int, maxLen)
+		for idx := ci * chunk; idx < (ci+1)*chunk && idx < total; idx++ {
+			l := sort.SearchInts(starts, idx+1) - 1
+			off := idx - starts[l]
+			for p := l - 1; p >= 0; p-- {
+				digits[p] = off % k
+				off /= k
+			}
+			sb.Reset()
+			for p := 0; p < l; p++ {
+				sb.WriteString(syms[digits[p]])
+			}
+			f(local, idx, l, sb.String())
+		}
+		done(local)
+	})
+	return total
+}
+
+type localState struct {
+	states []string
+}
+
+// ---------------------------------------------------------------------------------------------
+// the implementation under test: env providers
+
+type ctor struct {
+	name string
+	new  func(s string) (bufconnect.TokenProvider, error)
+}
+
+var ctors = []ctor{
+	{"NewTokenProviderFromContainer", func(s string) (bufconnect.TokenProvider, error) {
+		return bufconnect.NewTokenProviderFromContainer(app.NewEnvContainer(map[string]string{"BUF_TOKEN": s}))
+	}},
+	{"NewTokenProviderFromString", bufconnect.NewTokenProviderFromString},
+}
+
+// classify names the structural reason of a lookup mismatch (signature detail).
+func classify(cfg Config, q, want, got string) string {
+	switch {
+	case want == "" && got != "":
+		if owners := cfg.Owners(got); len(owners) > 0 {
+			return "token-of-other-host-sent/" + Relation(q, owners[0])
+		}
+		return "unconfigured-token-sent"
+	case want != "" && got == "":
+		return "configured-token-missing/" + cfg.Kind.String()
+	}
+	if cfg.GreyDup {
+		for _, o := range cfg.Owners(got) {
+			if o == q {
+				return "later-duplicate-entry-wins"
+			}
+		}
+	}
+	if owners := cfg.Owners(got); len(owners) > 0 {
+		return "token-of-other-host-sent-instead/" + Relation(q, owners[0])
+	}
+	return "wrong-token/" + cfg.Kind.String()
+}
+
+// checkEnv replays one BUF_TOKEN string on both constructors against the model.
+func (c *checker) checkEnv(phase, s string, cfg Config, hosts []string) {
+	r := c.r
+	for _, ct := range ctors {
+		p, err := ct.new(s)
+		accepted := err == nil && p != nil
+		if cfg.Kind == KReject {
+			c.lookup(1)
+			if accepted {
+				var sent []string
+				for _, q := range hosts {
+					if got := p.RemoteToken(q); got != "" && len(sent) < 6 {
+						sent = append(sent, fmt.Sprintf("%q->%q", q, got))
+					}
+				}
+				r.Violate("env-parse/malformed-accepted/"+cfg.Malformed,
+					fmt.Sprintf("%s(%q) succeeded although the string is malformed (%s); it is applied as %v instead of being rejected as a whole", ct.name, s, cfg.Malformed, sent),
+					Case{Phase: phase, Constructor: ct.name, BufToken: s, Model: cfg.Canon(), Detail: cfg.Malformed, Sent: sent})
+			}
+			continue
+		}
+		if !accepted {
+			c.lookup(1)
+			if cfg.Grey() {
+				c.envGreyRejected.Add(1)
+				continue
+			}
+			r.Violate("env-parse/wellformed-rejected/"+cfg.Kind.String(),
+				fmt.Sprintf("%s(%q) failed (%v) although the string is well-formed: %s", ct.name, s, err, cfg.Canon()),
+				Case{Phase: phase, Constructor: ct.name, BufToken: s, Model: cfg.Canon(), Detail: fmt.Sprint(err)})
+			continue
+		}
+		if cfg.Grey() {
+			c.envGreyAccepted.Add(1)
+		}
+		for _, q := range hosts {
+			want := cfg.Lookup(q)
+			got := p.RemoteToken(q)
+			if got2 := p.RemoteToken(q); got2 != got {
+				r.Violate("env-lookup/nondeterministic", fmt.Sprintf("RemoteToken(%q) of %q returned %q then %q", q, s, got, got2),
+					Case{Phase: phase, Constructor: ct.name, BufToken: s, RequestHost: q, Model: cfg.Canon(), Want: want, Got: got + "|" + got2})
+			}
+			if got != want {
+				why := classify(cfg, q, want, got)
+				r.Violate("env-lookup/"+why,
+					fmt.Sprintf("BUF_TOKEN=%q, request host %q: provider returns token %q, model %s says %q (%s)", s, q, got, cfg.Canon(), want, why),
+					Case{Phase: phase, Constructor: ct.name, BufToken: s, RequestHost: q, Model: cfg.Canon(), Want: want, Got: got, Detail: why})
+			}
+		}
+		c.lookup(len(hosts))
+	}
+	// clause accounting (once per string, from the model)
+	if cfg.Kind == KReject {
+		return
+	}
+	for _, q := range hosts {
+		want := cfg.Lookup(q)
+		switch {
+		case cfg.Kind == KSingle:
+			c.lookHostless.Add(1)
+		case want != "":
+			c.lookTokenForHost.Add(1)
+		case cfg.Kind == KMap:
+			c.lookNoLeak.Add(1) // tokens exist for other hosts only: nothing may be sent
+		default:
+			c.lookNoneNothingConfigured.Add(1)
+		}
+	}
+}
+
+// hostVariants returns request hosts derived from the hosts a configuration names.
+func hostVariants(cfg Config, s string, base []string, extra ...string) []string {
+	seen := make(map[string]bool, len(base)+8)
+	out := make([]string, 0, len(base)+8)
+	add := func(h string) {
+		if !seen[h] {
+			seen[h] = true
+			out = append(out, h)
+		}
+	}
+	for _, h := range base {
+		add(h)
+	}
+	for _, b := range cfg.Bindings {
+		add(b.Host)
+		add(b.Host + extra[0])
+		add(extra[0] + b.Host)
+		add(b.Host[:len(b.Host)-1])
+		add(b.Host[1:])
+		add(b.Token)
+		add(b.Token + "@" + b.Host)
+	}
+	add(s)
+	return out
+}
+
+// envSpace enumerates all strings over syms up to maxLen symbols (phase A / B).
+func (c *checker) envSpace(phase string, syms []string, maxLen, selfCheckLen int, baseHosts []string, pad string) {
+	r := c.r
+	gen := Sentences(syms, selfCheckLen)
+	var genHits atomic.Int64
+	total := forAllStrings(r, syms, maxLen, func(local *localState, idx, nsyms int, s string) {
+		cfg := Parse(s)
+		c.envStrings.Add(1)
+		// model self-check: recogniser and generator agree
+		if nsyms <= selfCheckLen {
+			c.selfChecked.Add(1)
+			g, ok := gen[s]
+			if ok {
+				genHits.Add(1)
+			}
+			if ok != (cfg.Kind != KReject) || (ok && !SameConfig(g, cfg)) {
+				r.Incomplete(fmt.Sprintf("model self-check failed on %q: recogniser %s, generator %v %s", s, cfg.Canon(), ok, g.Canon()))
+				return
+			}
+		}
+		nontrivial := false
+		switch cfg.Kind {
+		case KNone:
+			c.envNone.Add(1)
+		case KSingle:
+			c.envSingle.Add(1)
+			nontrivial = true
+		case KMap:
+			c.envMap.Add(1)
+			nontrivial = true
+		case KReject:
+			c.envReject.Add(1)
+			if PartlyWellFormed(s) {
+				c.envRejectPartly.Add(1)
+				nontrivial = true
+			}
+		}
+		if nontrivial {
+			r.Distinct(phase + ":" + s)
+		}
+		local.states = append(local.states, "env:"+cfg.Canon())
+		hosts := baseHosts
+		if cfg.Kind == KMap {
+			hosts = hostVariants(cfg, s, baseHosts, pad)
+		}
+		c.checkEnv(phase, s, cfg, hosts)
+		r.SampleEvery(idx+1, 150001, func() any {
+			return map[string]any{"phase": phase, "buf_token": s, "model": cfg.Canon(), "malformed": cfg.Malformed, "request_hosts": len(hosts)}
+		})
+	}, func(local *localState) { c.addStates(local.states) })
+	if int(genHits.Load()) != len(gen) && !r.Expired() {
+		r.Incomplete(fmt.Sprintf("model self-check failed in %s: generator produced %d sentences, enumeration met %d of them", phase, len(gen), genHits.Load()))
+	}
+	r.Set(phase+"_alphabet", syms)
+	r.Set(phase+"_max_symbols", maxLen)
+	r.Set(phase+"_strings", total)
+	r.Set(phase+"_generator_sentences_selfcheck", len(gen))
+	r.Set(phase+"_selfcheck_max_symbols", selfCheckLen)
+}
+
+// ---------------------------------------------------------------------------------------------
+// universe shared by the structured phases
+
+const (
+	H1 = "r.io"  // registry 1
+	H2 = "xr.io" // registry 2: H1 is a proper suffix of H2
+	H3 = "h3.io" // registry 3: never configured by name
+)
+
+var secrets = []string{"tok1", "tok2", "tok3", "tok4", "tok5", "tok6", "tok7", "pwA", "pwB", "pwD", "pwA2"}
+
+// structuredSentences builds every comma-joined list of 1..k entry forms (plus the empty string).
+func structuredSentences(forms []string, k int) []string {
+	out := []string{""}
+	var rec func(prefix string, depth int)
+	rec = func(prefix string, depth int) {
+		for _, f := range forms {
+			s := f
+			if depth > 0 {
+				s = prefix + "," + f
+			}
+			out = append(out, s)
+			if depth+1 < k {
+				rec(s, depth+1)
+			}
+		}
+	}
+	rec("", 0)
+	// dedupe ("" as a one-element list equals the empty string)
+	seen := map[string]bool{}
+	var uniq []string
+	for _, s := range out {
+		if !seen[s] {
+			seen[s] = true
+			uniq = append(uniq, s)
+		}
+	}
+	return uniq
+}
+
+func entryForms(h1, h2, h3 string) []string {
+	var forms []string
+	for _, t := range []string{"tok1", "tok2", "", "tok1:x"} {
+		for _, h := range []string{h1, h2, h3, ""} {
+			forms = append(forms, t+"@"+h)
+		}
+	}
+	return append(forms, "tok1", "tok1@"+h1+"@"+h2, "")
+}
+
+// structuredEnv replays structured sentences (up to three entries, malformations at every position).
+func (c *checker) structuredEnv(k int) {
+	r := c.r
+	sentences := structuredSentences(entryForms(H1, H2, H3), k)
+	base := []string{H1, H2, H3, "", "r.i", "io", ".io", "r.io:443", "xxr.io", "r.io.", "tok1", "default"}
+	r.ParallelFor(len(sentences), 0, func(i int) {
+		s := sentences[i]
+		cfg := Parse(s)
+		c.envStrings.Add(1)
+		switch cfg.Kind {
+		case KNone:
+			c.envNone.Add(1)
+		case KSingle:
+			c.envSingle.Add(1)
+		case KMap:
+			c.envMap.Add(1)
+		case KReject:
+			c.envReject.Add(1)
+			if PartlyWellFormed(s) {
+				c.envRejectPartly.Add(1)
+			}
+		}
+		if cfg.Kind != KNone && (cfg.Kind != KReject || PartlyWellFormed(s)) {
+			r.Distinct("S:" + s)
+		}
+		c.addStates([]string{"env:" + cfg.Canon()})
+		c.checkEnv("S", s, cfg, hostVariants(cfg, s, base, "x"))
+		r.SampleEvery(i, 1777, func() any {
+			return map[string]any{"phase": "S", "buf_token": s, "model": cfg.Canon(), "malformed": cfg.Malformed}
+		})
+	})
+	r.Set("S_structured_sentences", len(sentences))
+	r.Set("S_max_entries", k)
+}
+
+// ---------------------------------------------------------------------------------------------
+// phase C: generated .netrc files
+
+type netrcFile struct {
+	entries []NEntry
+	layout  int
+	text    string
+	env     map[string]string // HOME or NETRC
+}
+
+func (c *checker) writeNetrcFiles(sub string, universe [][]NEntry, layouts []int) ([]netrcFile, error) {
+	var files []netrcFile
+	for ui, entries := range universe {
+		for _, layout := range layouts {
+			dir := filepath.Join(c.scratch, sub, fmt.Sprintf("%d-%d", ui, layout))
+			if err := os.MkdirAll(dir, 0o700); err != nil {
+				return nil, err
+			}
+			text := RenderNetrc(entries, layout)
+			f := netrcFile{entries: entries, layout: layout, text: text}
+			if (ui+layout)%2 == 0 {
+				f.env = map[string]string{"HOME": dir}
+				if err := os.WriteFile(filepath.Join(dir, ".netrc"), []byte(text), 0o600); err != nil {
+					return nil, err
+				}
+			} else {
+				p := filepath.Join(dir, "custom-netrc")
+				f.env = map[string]string{"HOME": filepath.Join(dir, "no-such-home"), "NETRC": p}
+				if err := os.WriteFile(p, []byte(text), 0o600); err != nil {
+					return nil, err
+				}
+			}
+			files = append(files, f)
+		}
+	}
+	return files, nil
+}
+
+func classifyNetrc(entries []NEntry, q, want, got string) string {
+	owners := NOwner(entries, got)
+	named := false
+	for _, e := range entries {
+		if !e.Default && e.Name == q {
+			named = true
+		}
+	}
+	switch {
+	case got != "" && len(owners) == 0:
+		return "unconfigured-token-sent"
+	case want != "" && got == "":
+		if named {
+			return "machine-token-missing"
+		}
+		return "default-token-missing"
+	case got != "" && owners[0] == "default" && named:
+		return "default-overrides-machine-entry"
+	case got != "" && owners[0] == q:
+		return "later-duplicate-machine-wins"
+	case got != "":
+		return "token-of-other-machine-sent/" + Relation(q, owners[0])
+	}
+	return "wrong-token"
+}
+
+func (c *checker) netrcSpace() {
+	r := c.r
+	templates := []NEntry{
+		{Name: H1, Login: "l1", Password: "pwA"},
+		{Name: H2, Login: "l2", Password: "pwB"},
+		{Default: true, Login: "ld", Password: "pwD"},
+		{Name: H1, Login: "l1b", Password: "pwA2"},
+	}
+	universe := netrcUniverse(templates, 4)
+	files, err := c.writeNetrcFiles("netrc", universe, []int{layoutOneLine, layoutMultiLine, layoutPasswordFirst})
+	if err != nil {
+		r.Incomplete("cannot write netrc files: " + err.Error())
+		return
+	}
+	hosts := []string{H1, H2, H3, "", "r.i", "io", "r.io:443", "xxr.io", "default", "machine"}
+	r.ParallelFor(len(files), 0, func(i int) {
+		f := files[i]
+		container := app.NewEnvContainer(f.env)
+		p := bufconnect.NewNetrcTokenProvider(container, netrc.GetMachineForName)
+		if len(f.entries) > 0 {
+			r.Distinct(fmt.Sprintf("C:%d:%s", f.layout, NCanon(f.entries)))
+		}
+		c.addStates([]string{NCanon(f.entries)})
+		for _, q := range hosts {
+			want := NLookup(f.entries, q)
+			got := p.RemoteToken(q)
+			if got != want {
+				why := classifyNetrc(f.entries, q, want, got)
+				r.Violate("netrc-lookup/"+why,
+					fmt.Sprintf("netrc %q, request host %q: provider returns %q, model %s says %q (%s)", f.text, q, got, NCanon(f.entries), want, why),
+					Case{Phase: "C", Netrc: f.text, RequestHost: q, Model: NCanon(f.entries), Want: want, Got: got, Detail: why})
+			}
+			named, namedPw := false, false
+			for _, e := range f.entries {
+				if !e.Default && e.Name == q {
+					named = true
+					namedPw = namedPw || e.Password != ""
+					break
+				}
+			}
+			switch {
+			case named && want != "":
+				c.nNamed.Add(1)
+			case named:
+				c.nNamedNoPassword.Add(1)
+			case want != "":
+				c.nDefault.Add(1)
+			default:
+				c.nNone.Add(1)
+			}
+		}
+		c.lookup(len(hosts))
+		r.SampleEvery(i, 499, func() any {
+			return map[string]any{"phase": "C", "netrc": f.text, "model": NCanon(f.entries)}
+		})
+	})
+	r.Set("C_netrc_files", len(files))
+	r.Set("C_netrc_entry_sequences", len(universe))
+	r.Set("C_request_hosts", hosts)
+}
+
+// ---------------------------------------------------------------------------------------------
+// phase D: provider chain behind the real interceptor and connectclient.Make, recording HTTP client
+
+type hit struct {
+	URLHost string
+	Host    string
+	Auth    []string
+	Leaks   []string
+}
+
+type recorder struct {
+	mu   sync.Mutex
+	hits []hit
+}
+
+var currentUserResponse = func() []byte {
+	b, err := proto.Marshal(registryv1alpha1.GetCurrentUserResponse_builder{
+		User: registryv1alpha1.User_builder{Id: "1", Username: "verif"}.Build(),
+	}.Build())
+	if err != nil {
+		panic(err)
+	}
+	return b
+}()
+
+func scanLeaks(req *http.Request) []string {
+	var leaks []string
+	for name, vals := range req.Header {
+		if name == "Authorization" {
+			continue
+		}
+		for _, v := range vals {
+			for _, s := range secrets {
+				if strings.Contains(v, s) {
+					leaks = append(leaks, name+": "+v)
+				}
+			}
+		}
+	}
+	for _, s := range secrets {
+		if strings.Contains(req.URL.String(), s) {
+			leaks = append(leaks, "url: "+req.URL.String())
+		}
+	}
+	return leaks
+}
+
+func (rc *recorder) Do(req *http.Request) (*http.Response, error) {
+	if req.Body != nil {
+		_, _ = io.Copy(io.Discard, req.Body)
+		_ = req.Body.Close()
+	}
+	h := hit{URLHost: req.URL.Host, Host: req.Host, Auth: append([]string(nil), req.Header.Values("Authorization")...), Leaks: scanLeaks(req)}
+	rc.mu.Lock()
+	rc.hits = append(rc.hits, h)
+	rc.mu.Unlock()
+	return &http.Response{
+		Status: "200 OK", StatusCode: 200, Proto: "HTTP/1.1", ProtoMajor: 1, ProtoMinor: 1,
+		Header:        http.Header{"Content-Type": []string{"application/proto"}},
+		Body:          io.NopCloser(bytes.NewReader(currentUserResponse)),
+		ContentLength: int64(len(currentUserResponse)),
+		Request:       req,
+	}, nil
+}
+
+func (rc *recorder) take() []hit {
+	rc.mu.Lock()
+	defer rc.mu.Unlock()
+	h := rc.hits
+	rc.hits = nil
+	return h
+}
+
+var perms3 = [][]int{{0, 1, 2}, {2, 1, 0}, {1, 0, 2}, {0, 2, 1}, {1, 2, 0}, {2, 0, 1}}
+
+// chainWant is the model of the whole chain: the environment configuration wins for a host it
+// configures, otherwise the netrc file is consulted.
+func chainWant(cfg Config, entries []NEntry, q string) (tok, source string) {
+	if t := cfg.Lookup(q); t != "" {
+		return t, "env"
+	}
+	if t := NLookup(entries, q); t != "" {
+		return t, "netrc"
+	}
+	return "", ""
+}
+
+func classifyChain(cfg Config, entries []NEntry, q, want, wantSource, got string) string {
+	envOwners := cfg.Owners(got)
+	netrcOwners := NOwner(entries, got)
+	named := false
+	for _, e := range entries {
+		named = named || (!e.Default && e.Name == q)
+	}
+	switch {
+	case got == "" && want != "":
+		return "configured-token-missing/" + wantSource
+	case got != "" && wantSource == "env" && got == NLookup(entries, q):
+		return "netrc-beats-env"
+	case got != "" && cfg.GreyDup && contains(envOwners, q) && cfg.Lookup(q) != got:
+		return "later-duplicate-env-entry-wins"
+	case got != "" && named && len(netrcOwners) > 0 && netrcOwners[0] == "default" && cfg.Lookup(q) == "":
+		return "default-overrides-machine-entry"
+	case got != "" && len(envOwners) > 0 && cfg.Lookup(q) != got:
+		return "env-token-of-other-host-sent/" + Relation(q, envOwners[0])
+	case got != "" && len(netrcOwners) > 0 && NLookup(entries, q) != got:
+		return "netrc-token-of-other-machine-sent/" + Relation(q, netrcOwners[0])
+	case got != "" && want == "":
+		return "unconfigured-token-sent"
+	}
+	return "wrong-token"
+}
+
+func contains(xs []string, x string) bool {
+	for _, y := range xs {
+		if y == x {
+			return true
+		}
+	}
+	return false
+}
+
+// checkHit compares one recorded request with the model. It returns the bare token that was sent.
+func (c *checker) checkHit(phase, sigPrefix, s, netrcText string, cfg Config, entries []NEntry, q, urlHostWant string, hits []hit) {
+	r := c.r
+	model := cfg.Canon() + " " + NCanon(entries)
+	mk := func(want, got, detail string) Case {
+		return Case{Phase: phase, BufToken: s, Netrc: netrcText, RequestHost: q, Model: model, Want: want, Got: got, Detail: detail}
+	}
+	want, source := chainWant(cfg, entries, q)
+	if len(hits) != 1 {
+		r.Violate(sigPrefix+"/request-count", fmt.Sprintf("one call for host %q produced %d HTTP requests", q, len(hits)), mk(want, "", fmt.Sprint(hits)))
+		return
+	}
+	h := hits[0]
+	if h.URLHost != urlHostWant {
+		r.Violate(sigPrefix+"/request-sent-to-other-host", fmt.Sprintf("client made for %q sent its request to %q", q, h.URLHost), mk(want, "", h.URLHost))
+	}
+	if len(h.Leaks) > 0 {
+		r.Violate(sigPrefix+"/token-outside-authorization-header", fmt.Sprintf("a configured secret shows up outside the Authorization header: %v", h.Leaks), mk(want, "", strings.Join(h.Leaks, "; ")))
+	}
+	got := ""
+	switch {
+	case len(h.Auth) > 1:
+		r.Violate(sigPrefix+"/several-authorization-headers", fmt.Sprintf("request for %q carries %d Authorization headers %q", q, len(h.Auth), h.Auth), mk(want, strings.Join(h.Auth, "|"), ""))
+		return
+	case len(h.Auth) == 1:
+		if !strings.HasPrefix(h.Auth[0], "Bearer ") {
+			r.Violate(sigPrefix+"/authorization-not-bearer", fmt.Sprintf("Authorization header %q is not a Bearer credential", h.Auth[0]), mk(want, h.Auth[0], ""))
+			return
+		}
+		got = strings.TrimPrefix(h.Auth[0], "Bearer ")
+		if got == "" {
+			r.Violate(sigPrefix+"/empty-bearer", "Authorization header with an empty token", mk(want, h.Auth[0], ""))
+			return
+		}
+	}
+	if got != want {
+		why := classifyChain(cfg, entries, q, want, source, got)
+		r.Violate(sigPrefix+"/"+why,
+			fmt.Sprintf("BUF_TOKEN=%q, netrc %q, request to %q: Authorization carries token %q, model says %q from %q (%s)", s, netrcText, q, got, want, source, why),
+			mk(want, got, why))
+	}
+}
+
+func (c *checker) chainSpace(k int, allPerms bool) {
+	r := c.r
+	sentences := structuredSentences(entryForms(H1, H2, H3), k)
+	templates := []NEntry{
+		{Name: H1, Login: "l1", Password: "pwA"},
+		{Name: H2, Login: "l2", Password: "pwB"},
+		{Default: true, Login: "ld", Password: "pwD"},
+	}
+	universe := netrcUniverse(templates, 3)
+	files, err := c.writeNetrcFiles("chain", universe, []int{layoutOneLine})
+	if err != nil {
+		r.Incomplete("cannot write netrc files: " + err.Error())
+		return
+	}
+	hosts := []string{H1, H2, H3}
+	n := len(sentences) * len(files)
+	r.ParallelFor(n, 0, func(i int) {
+		s := sentences[i/len(files)]
+		f := files[i%len(files)]
+		cfg := Parse(s)
+		env := map[string]string{"BUF_TOKEN": s}
+		for k, v := range f.env {
+			env[k] = v
+		}
+		container := app.NewEnvContainer(env)
+		envProvider, err := bufconnect.NewTokenProviderFromContainer(container)
+		if err != nil || cfg.Kind == KReject {
+			// acceptance itself is judged in checkEnv (phase S); a rejected configuration makes no requests
+			c.chEnvRejected.Add(1)
+			r.Eval(1)
+			return
+		}
+		c.addStates([]string{"env:" + cfg.Canon() + " " + NCanon(f.entries)})
+		if cfg.Kind != KNone || len(f.entries) > 0 {
+			r.Distinct(fmt.Sprintf("D:%s|%s", s, NCanon(f.entries)))
+		}
+		netrcProvider := bufconnect.NewNetrcTokenProvider(container, netrc.GetMachineForName)
+		rec := &recorder{}
+		config := connectclient.NewConfig(rec,
+			connectclient.WithAddressMapper(func(a string) string { return "https://" + a }),
+			connectclient.WithInterceptors([]connect.Interceptor{bufconnect.NewSetCLIVersionInterceptor("verif")}),
+			connectclient.WithAuthInterceptorProvider(bufconnect.NewAuthorizationInterceptorProvider(envProvider, netrcProvider)),
+		)
+		// all clients are made first from the one shared config, then used in some order
+		clients := make([]registryv1alpha1connect.AuthnServiceClient, len(hosts))
+		for hi, h := range hosts {
+			clients[hi] = connectclient.Make(config, h, registryv1alpha1connect.NewAuthnServiceClient)
+		}
+		orders := [][]int{perms3[i%6], perms3[(i+3)%6]}
+		if allPerms {
+			orders = perms3
+		}
+		for _, order := range orders {
+			for _, hi := range order {
+				q := hosts[hi]
+				_, err := clients[hi].GetCurrentUser(context.Background(), connect.NewRequest(&registryv1alpha1.GetCurrentUserRequest{}))
+				hits := rec.take()
+				if err != nil {
+					r.Incomplete(fmt.Sprintf("phase D: in-process call failed: %v", err))
+					return
+				}
+				c.checkHit("D", "chain", s, f.text, cfg, f.entries, q, q, hits)
+				c.lookup(1)
+				envTok, netrcTok := cfg.Lookup(q), NLookup(f.entries, q)
+				switch {
+				case envTok != "" && netrcTok != "":
+					c.chEnvWins.Add(1)
+				case envTok != "":
+					c.chEnvOnly.Add(1)
+				case netrcTok != "":
+					c.chNetrcUsed.Add(1)
+				default:
+					c.chNeither.Add(1)
+					if cfg.Kind == KMap {
+						c.chNoLeakEnv.Add(1)
+					}
+					if len(f.entries) > 0 {
+						c.chNoLeakNetrc.Add(1)
+					}
+				}
+			}
+		}
+		r.SampleEvery(i, 7919, func() any {
+			return map[string]any{"phase": "D", "buf_token": s, "netrc": f.text, "model": cfg.Canon() + " " + NCanon(f.entries)}
+		})
+	})
+	r.Set("D_env_sentences", len(sentences))
+	r.Set("D_netrc_files", len(files))
+	r.Set("D_call_orders_per_config", map[bool]int{true: 6, false: 2}[allPerms])
+}
+
+// ---------------------------------------------------------------------------------------------
+// phase E: end to end through the in-process CLI against loopback servers
+
+type trio struct {
+	servers [3]*httptest.Server
+	addrs   [3]string
+	recs    [3]*recorder
+}
+
+func newTrio() *trio {
+	t := &trio{}
+	for i := range t.servers {
+		rec := &recorder{}
+		t.recs[i] = rec
+		srv := httptest.NewUnstartedServer(http.HandlerFunc(func(w http.ResponseWriter, req *http.Request) {
+			_, _ = io.Copy(io.Discard, req.Body)
+			h := hit{URLHost: req.Host, Host: req.Host, Auth: append([]string(nil), req.Header.Values("Authorization")...), Leaks: scanLeaks(req)}
+			rec.mu.Lock()
+			rec.hits = append(rec.hits, h)
+			rec.mu.Unlock()
+			w.Header().Set("Content-Type", "application/proto")
+			w.Header().Set("Connection", "close")
+			_, _ = w.Write(currentUserResponse)
+		}))
+		srv.Config.SetKeepAlivesEnabled(false)
+		srv.Start()
+		t.servers[i] = srv
+		t.addrs[i] = strings.TrimPrefix(srv.URL, "http://")
+	}
+	return t
+}
+
+func (t *trio) close() {
+	for _, s := range t.servers {
+		s.Close()
+	}
+}
+
+func substitute(s string, t *trio) string {
+	return strings.NewReplacer("{1}", t.addrs[0], "{2}", t.addrs[1], "{3}", t.addrs[2]).Replace(s)
+}
+
+func (c *checker) e2eSpace(k, netrcLen int) {
+	r := c.r
+	forms := []string{"tok1@{1}", "tok2@{2}", "tok3@{1}", "tok4", "", "tok5@", "@{1}", "tok6@{1}@{2}", "tok7@{3}"}
+	sentences := structuredSentences(forms, k)
+	templates := []NEntry{
+		{Name: "{1}", Login: "l1", Password: "pwA"},
+		{Name: "{2}", Login: "l2", Password: "pwB"},
+		{Default: true, Login: "ld", Password: "pwD"},
+	}
+	universe := netrcUniverse(templates, netrcLen)
+	cfgDir := filepath.Join(c.scratch, "bufconfig")
+	if err := os.MkdirAll(cfgDir, 0o700); err != nil {
+		r.Incomplete("cannot create config dir: " + err.Error())
+		return
+	}
+	if err := os.WriteFile(filepath.Join(cfgDir, "config.yaml"), []byte("version: v1\ntls:\n  use: \"false\"\n"), 0o600); err != nil {
+		r.Incomplete("cannot write config.yaml: " + err.Error())
+		return
+	}
+	const nTrios = 16
+	pool := make(chan *trio, nTrios)
+	var trios []*trio
+	for i := 0; i < nTrios; i++ {
+		t := newTrio()
+		trios = append(trios, t)
+		pool <- t
+	}
+	defer func() {
+		for _, t := range trios {
+			t.close()
+		}
+	}()
+	var seq atomic.Int64
+	n := len(sentences) * len(universe)
+	r.ParallelFor(n, 0, func(i int) {
+		tmplS := sentences[i/len(universe)]
+		tmplEntries := universe[i%len(universe)]
+		t := <-pool
+		defer func() { pool <- t }()
+		s := substitute(tmplS, t)
+		entries := make([]NEntry, len(tmplEntries))
+		for j, e := range tmplEntries {
+			e.Name = substitute(e.Name, t)
+			entries[j] = e
+		}
+		tmplEntriesCanon := NCanon(tmplEntries)
+		cfg := Parse(s)
+		home := filepath.Join(c.scratch, "e2e", fmt.Sprint(seq.Add(1)))
+		if err := os.MkdirAll(home, 0o700); err != nil {
+			r.Incomplete("cannot create home: " + err.Error())
+			return
+		}
+		defer os.RemoveAll(home)
+		netrcText := RenderNetrc(entries, layoutOneLine)
+		if len(entries) > 0 {
+			if err := os.WriteFile(filepath.Join(home, ".netrc"), []byte(netrcText), 0o600); err != nil {
+				r.Incomplete("cannot write netrc: " + err.Error())
+				return
+			}
+		}
+		c.addStates([]string{"e2e:" + Parse(tmplS).Canon() + " " + tmplEntriesCanon})
+		if cfg.Kind != KNone || len(entries) > 0 {
+			r.Distinct("E:" + tmplS + "|" + tmplEntriesCanon)
+		}
+		for hi := 0; hi < 3; hi++ {
+			q := t.addrs[hi]
+			env := map[string]string{"HOME": home, "BUF_CONFIG_DIR": cfgDir, "BUF_CACHE_DIR": filepath.Join(home, "cache")}
+			if s != "" {
+				env["BUF_TOKEN"] = s
+			}
+			var res bufx.CLIResult
+			var all [3][]hit
+			total := 0
+			// a well-formed configuration whose run fails is retried twice, so that a transient loopback
+			// socket error cannot turn into a verdict; only a failure that repeats is reported
+			for attempt := 0; attempt < 3; attempt++ {
+				runEnv := make(map[string]string, len(env))
+				for k, v := range env {
+					runEnv[k] = v
+				}
+				res = bufx.RunCLI(context.Background(), runEnv, "", "registry", "whoami", q)
+				total = 0
+				for j := range all {
+					all[j] = t.recs[j].take()
+					total += len(all[j])
+				}
+				if res.ExitCode == 0 || cfg.Kind == KReject || cfg.Grey() {
+					break
+				}
+			}
+			c.e2eRuns.Add(1)
+			c.lookup(1)
+			mk := func(detail string) Case {
+				return Case{Phase: "E", BufToken: tmplS, Netrc: RenderNetrc(tmplEntries, layoutOneLine), RequestHost: fmt.Sprintf("{%d}", hi+1),
+					Model: Parse(tmplS).Canon() + " " + tmplEntriesCanon, Detail: detail}
+			}
+			if cfg.Kind == KReject || (cfg.Grey() && res.ExitCode != 0 && total == 0) {
+				c.e2eRejected.Add(1)
+				if res.ExitCode == 0 || total != 0 {
+					var sent []string
+					for j := range all {
+						for _, h := range all[j] {
+							sent = append(sent, fmt.Sprintf("{%d}<-%q", j+1, h.Auth))
+						}
+					}
+					cs := mk(cfg.Malformed)
+					cs.Sent = sent
+					r.Violate("e2e/malformed-accepted/"+cfg.Malformed,
+						fmt.Sprintf("`buf registry whoami` with malformed BUF_TOKEN template %q (%s) exited %d and made %d requests %v", tmplS, cfg.Malformed, res.ExitCode, total, sent), cs)
+				}
+				continue
+			}
+			if res.ExitCode != 0 {
+				r.Violate("e2e/wellformed-config-fails", fmt.Sprintf("`buf registry whoami {%d}` failed with exit %d: %s", hi+1, res.ExitCode, strings.TrimSpace(res.Stderr)), mk(res.Stderr))
+				continue
+			}
+			for j := range all {
+				if j != hi && len(all[j]) > 0 {
+					r.Violate("e2e/request-sent-to-other-host", fmt.Sprintf("whoami for registry {%d} sent %d requests to registry {%d} (Authorization %q)", hi+1, len(all[j]), j+1, all[j][0].Auth), mk(""))
+				}
+			}
+			c.checkHit("E", "e2e", tmplS, RenderNetrc(tmplEntries, layoutOneLine), cfg, entries, q, q, all[hi])
+			envTok, netrcTok := cfg.Lookup(q), NLookup(entries, q)
+			switch {
+			case envTok != "" && netrcTok != "":
+				c.e2eEnvWins.Add(1)
+				c.e2eHeader.Add(1)
+			case envTok != "":
+				c.e2eHeader.Add(1)
+			case netrcTok != "":
+				c.e2eNetrc.Add(1)
+				c.e2eHeader.Add(1)
+			default:
+				c.e2eNoHeader.Add(1)
+				if cfg.Kind == KMap || len(entries) > 0 {
+					c.e2eNoLeak.Add(1)
+				}
+			}
+		}
+		r.SampleEvery(i, 1201, func() any {
+			return map[string]any{"phase": "E", "buf_token_template": tmplS, "netrc_template": RenderNetrc(tmplEntries, layoutOneLine)}
+		})
+	})
+	r.Set("E_env_sentence_templates", len(sentences))
+	r.Set("E_netrc_entry_sequences", len(universe))
+	r.Set("E_loopback_registries", 3)
+}
+
+// ---------------------------------------------------------------------------------------------
+
+func run(r *evid.Run) {
+	r.Rule("A: every string of <= n characters over {t,u,h,:,@,','} as BUF_TOKEN; B: every string of <= m symbols over {tok1,tok2,r.io,xr.io,:,@,','}; " +
+		"S: every comma-joined list of <= k entry forms (19 forms incl. empty parts, missing host, two '@', token with ':'); each replayed on both env constructors and, " +
+		"when the reference grammar accepts it, looked up for every request host of a fixed set (A: all 84 strings of <= 3 characters over {t,u,h,:}) plus hosts derived " +
+		"from the configured ones (extended, truncated, token text, whole string). C: every ordered selection of <= 4 of {machine r.io, machine xr.io, default, second machine r.io}, " +
+		"each entry with/without password, 3 layouts, via HOME or NETRC. D: S-sentences x netrc files x 3 hosts through the real interceptor + connectclient.Make with a recording HTTP client, " +
+		"clients made first and called in several orders. E: sentence templates x netrc files x 3 loopback registries through `buf registry whoami`. " +
+		"A case is distinct/non-trivial when its configuration binds at least one token, or is malformed but contains a well-formed token@host part.")
+	r.Assume("hosts are compared as exact strings (the property's anchor says exact-match lookup); case-variants of host names are not requested")
+	r.Assume("a token of a token@host entry containing ':' and a host named twice are open zones: rejecting is accepted, as is accepting with exactly the written binding / the first entry winning")
+	r.Assume(".netrc files are the well-formed files written by refnetrc (machine/default, login, password keys); lexical corner cases of the third-party netrc parser (quotes, macdef, truncated files) are out of scope")
+	r.Assume("TLS is switched off (tls.use=false in config.yaml) in phase E so that loopback servers can stand in for registries; the address-to-URL mapping is otherwise the production one")
+
+	scratch, err := os.MkdirTemp("", "verif-c19-")
+	if err != nil {
+		r.Incomplete("cannot create scratch dir: " + err.Error())
+		return
+	}
+	defer os.RemoveAll(scratch)
+	c := &checker{r: r, scratch: scratch, states: map[uint64]struct{}{}}
+
+	charSyms := []string{"t", "u", "h", ":", "@", ","}
+	wordSyms := []string{"tok1", "tok2", H1, H2, ":", "@", ","}
+	var hostsA []string
+	hostsA = append(hostsA, "")
+	plain := []string{"t", "u", "h", ":"}
+	level := []string{""}
+	for l := 1; l <= 3; l++ {
+		var next []string
+		for _, w := range level {
+			for _, p := range plain {
+				next = append(next, w+p)
+			}
+		}
+		hostsA = append(hostsA, next...)
+		level = next
+	}
+	hostsB := []string{H1, H2, H3, "", "r.i", "io", ".io", "r.io:443", "r.io:tok1", "xxr.io", "r.io.", "tok1", "tok2", "r.ior.io", "default"}
+
+	lenA, lenB, selfA, selfB, kS, kD, kE, netrcE := 7, 7, 7, 6, 3, 2, 2, 2
+	if !r.Quick() {
+		lenA, lenB, selfA, selfB, kS, kD, kE, netrcE = 9, 8, 8, 7, 4, 3, 3, 2
+	}
+	c.envSpace("A", charSyms, lenA, selfA, hostsA, "h")
+	c.envSpace("B", wordSyms, lenB, selfB, hostsB, "x")
+	c.structuredEnv(kS)
+	c.netrcSpace()
+	c.chainSpace(kD, !r.Quick())
+	c.e2eSpace(kE, netrcE)
+
+	r.States.Store(int64(len(c.states)))
+	r.Set("env_strings", c.envStrings.Load())
+	r.Set("env_model_none", c.envNone.Load())
+	r.Set("env_model_single_hostless", c.envSingle.Load())
+	r.Set("env_model_host_map", c.envMap.Load())
+	r.Set("env_model_malformed", c.envReject.Load())
+	r.Set("env_model_malformed_with_wellformed_part", c.envRejectPartly.Load())
+	r.Set("env_open_zone_rejected_by_impl", c.envGreyRejected.Load())
+	r.Set("env_open_zone_accepted_by_impl", c.envGreyAccepted.Load())
+	r.Set("env_model_selfchecked_strings", c.selfChecked.Load())
+	r.Set("clause_env_token_for_configured_host", c.lookTokenForHost.Load())
+	r.Set("clause_env_hostless_token_every_host", c.lookHostless.Load())
+	r.Set("clause_env_no_token_for_unconfigured_host_while_others_configured", c.lookNoLeak.Load())
+	r.Set("clause_env_nothing_configured", c.lookNoneNothingConfigured.Load())
+	r.Set("clause_netrc_machine_token", c.nNamed.Load())
+	r.Set("clause_netrc_default_token", c.nDefault.Load())
+	r.Set("clause_netrc_machine_without_password_blocks_default", c.nNamedNoPassword.Load())
+	r.Set("clause_netrc_no_token", c.nNone.Load())
+	r.Set("clause_chain_env_beats_netrc", c.chEnvWins.Load())
+	r.Set("clause_chain_env_only", c.chEnvOnly.Load())
+	r.Set("clause_chain_netrc_fallback", c.chNetrcUsed.Load())
+	r.Set("clause_chain_no_header", c.chNeither.Load())
+	r.Set("clause_chain_no_header_while_env_configures_other_host", c.chNoLeakEnv.Load())
+	r.Set("clause_chain_no_header_while_netrc_configures_other_machine", c.chNoLeakNetrc.Load())
+	r.Set("chain_configs_with_rejected_env", c.chEnvRejected.Load())
+	r.Set("e2e_cli_runs", c.e2eRuns.Load())
+	r.Set("clause_e2e_malformed_rejected_no_request", c.e2eRejected.Load())
+	r.Set("clause_e2e_header_sent", c.e2eHeader.Load())
+	r.Set("clause_e2e_env_beats_netrc", c.e2eEnvWins.Load())
+	r.Set("clause_e2e_netrc_fallback", c.e2eNetrc.Load())
+	r.Set("clause_e2e_no_header", c.e2eNoHeader.Load())
+	r.Set("clause_e2e_no_header_while_other_host_configured", c.e2eNoLeak.Load())
+
+	if r.Expired() {
+		return
+	}
+	for _, cl := range []struct {
+		name string
+		n    int64
+	}{
+		{"env host map", c.envMap.Load()}, {"env host-less", c.envSingle.Load()}, {"env malformed with well-formed part", c.envRejectPartly.Load()},
+		{"env no token for unconfigured host", c.lookNoLeak.Load()}, {"env token for configured host", c.lookTokenForHost.Load()},
+		{"netrc machine", c.nNamed.Load()}, {"netrc default", c.nDefault.Load()}, {"netrc machine without password", c.nNamedNoPassword.Load()},
+		{"chain env beats netrc", c.chEnvWins.Load()}, {"chain netrc fallback", c.chNetrcUsed.Load()}, {"chain no header", c.chNoLeakEnv.Load()},
+		{"e2e rejected", c.e2eRejected.Load()}, {"e2e env beats netrc", c.e2eEnvWins.Load()}, {"e2e netrc fallback", c.e2eNetrc.Load()}, {"e2e no leak", c.e2eNoLeak.Load()},
+	} {
+		if cl.n == 0 {
+			r.Incomplete("clause never exercised: " + cl.name)
+		}
+	}
+}
